@@ -209,7 +209,8 @@ def tr_filter(run):
     m = re.search(r"strtok_r\s*\(\s*str\s*,\s*" + STR + r"\s*,\s*&rest\s*\)", body)
     v["chain_delim"] = c_unescape(m.group(1)) if m else None
     m = re.search(r"fcPos_filterSpecArg\s*=\s*strstr\s*\(\s*filterSpec\s*,\s*" + STR + r"\s*\)", body)
-    v["name_delim"] = c_unescape(m.group(1)) if m else None
+    mc = re.search(r"fcPos_filterSpecArg\s*=\s*strchr\s*\(\s*filterSpec\s*,\s*'((?:\\.|[^'\\])+)'\s*\)", body)
+    v["name_delim"] = c_unescape(m.group(1)) if m else (c_unescape(mc.group(1)) if mc else None)
     # the name copy: k = colon - spec; strncpy(filterName, filterSpec, k); filterName[k] = 0; arg = colon + 1
     pat = [r"filterNameSize\s*=\s*fcPos_filterSpecArg\s*-\s*filterSpec\s*;", r"strncpy\s*\(\s*filterName\s*,\s*filterSpec\s*,\s*filterNameSize\s*\)\s*;",
            r"filterName\s*\[\s*filterNameSize\s*\]\s*=\s*'\\0'\s*;", r"filterArgPtr\s*=\s*fcPos_filterSpecArg\s*\+\s*1\s*;"]
